@@ -6,7 +6,8 @@ CFG = {
     "rule": "three cases in four (C17.hist): histories of 3..10 relate calls over 2..3 geometries of any type from one shared grid; each operand of "
             "each call is the plain geometry, an owned PreparedGeometry or a borrowed PreparedGeometry (created once, reused for the rest of the "
             "history), in either position, repeats included; every answer is compared with the plain answer and with the executable DE-9IM "
-            "specification of the underlying geometries; histories without any prepared operand are tagged triv. One case in four (C17.graph): one "
+            "specification of the underlying geometries; after every call the dump of each prepared operand's cache must be what it was before the call, and the graph "
+            "it hands out must equal the freshly built self-noded graph (digests of the hook dumps); histories without any prepared operand are tagged triv. One case in four (C17.graph): one "
             "geometry of any type (valid shapes, and shapes made to exercise graph construction: repeated coordinates, closed / collapsed / empty line "
             "strings sharing end points on a 2x2 grid, rings in either direction with rotated start, degenerate rings, polygons with an empty shell, "
             "nested collections with multipolygons) and an operand position; through the verif-hooks dump the graph built by GeometryGraph::new is "
@@ -34,7 +35,7 @@ MANIFEST = {
             "swapLabels and cloneForArg mirror planar_graph.rs, addSelfIntersectionNodes mirrors the node-insertion step of compute_self_nodes. Proved for every "
             "geometry of every type: (buildGraph 0 g).swapLabels = buildGraph 1 g (swap_buildGraph, via every construction step commuting with the swap on every "
             "starting graph), the same after self-noding for any recorded intersections (swap_selfNodes), hence clone_for_arg_index of the cache equals the fresh "
-            "graph in both operand positions (cloneForArg_buildGraph, cloneForArg_noded_eq_fresh); the mod-2 rule: a node of a MultiLineString graph is OnBoundary "
+            "graph in both operand positions (cloneForArg_buildGraph, cloneForArg_noded_eq_fresh); building for index 0 leaves slot 1 unset on every node and edge (buildGraph_other_slot_unset) and the node-map order is label-blind (sortNodes_swapLabels); the mod-2 rule: a node of a MultiLineString graph is OnBoundary "
             "iff it is an end point of an odd number of members (mod2_rule, boundary_iff_odd; mod2_rule_after_collapsed for members collapsing to one point, which "
             "the code treats as points); the edge a polygon ring contributes does not depend on the ring's direction up to reversing it and exchanging left and "
             "right (ring_label_reverse_partial: for rings whose lexicographically least point is visited once, as in C05), and marks the same node "
